@@ -147,6 +147,9 @@ pub open spec fn bodies_ok(s: synast::Stmt, r: Option<asg::Stmt>) -> bool {
         }),
         synast::Stmt::WhileStmt(w) => r is Some && r->Some_0 is While && bors_ok(w.sp_block_or_stmt(), r->Some_0->While_0.loop_body),
         synast::Stmt::ForStmt(f) => r is Some && r->Some_0 is ForStmt && bors_ok(f.sp_block_or_stmt(), r->Some_0->ForStmt_0.loop_body),
+        // gate and subroutine bodies
+        synast::Stmt::Gate(g) => r is Some && r->Some_0 is GateDefinition && (g.sp_body() is Some ==> block_ok(g.sp_body()->Some_0.sp_statements(), r->Some_0->GateDefinition_0.block.statements@)),
+        synast::Stmt::Def(d) => r is Some && r->Some_0 is DefStmt && (d.sp_body() is Some ==> block_ok(d.sp_body()->Some_0.sp_statements(), r->Some_0->DefStmt_0.block.statements@)),
         _ => true,
     }
 }
